@@ -4,6 +4,12 @@ import json, os
 V = os.path.dirname(os.path.dirname(os.path.abspath(__file__)))
 
 CLAIMED = {
+ "C13": {
+  "text": "The bridge is four TLA+ functions transcribed from src/serde_json.rs (kind chain, into_value chain, From<Value>, Deserr for Value) plus the classification rule LitHolds. TLC checks on 959 small documents over number literals at every classification boundary that kinds agree at every node and that the round trip is the identity; every document and seeded random documents are parsed by serde_json and the real kind()/into_value()/From/Deserr observations are validated line by line by TLC (per-node kind agreement and classification by literal, view = ViewOf(held), both back-conversions = held, no error).",
+  "note": "serde_json is trusted as parser and as holder of numbers. Nesting of validated documents is limited to ~80 levels by the Gson nesting limit of TLC's Json module (deeper nests are exercised by the C12 check).",
+  "technique": "TLA+ transcription + small-scope TLC enumeration; spec->impl replay; impl->spec trace validation",
+  "design_ref": "DESIGN.md section 5 (C13)",
+ },
  "C05": {
   "text": "Outcome(target, value) is a TLA+ function over digit sequences (exact bounds up to 2^128). TLC enumerates 30 targets x the 2^k boundary universe in both integer forms x every other kind (17 400 points) and checks Outcome against independently worded facts (ok iff admissible and in domain, violated bound really violated, widening, 128-bit targets accept all of u64/i64); every point is replayed through the real impls via serde_json and a second value source, every integer of [-70000,70000] is swept for every target/form/source and validated by TLC per run-length-encoded stretch, plus seeded random numbers, strings and f32 double-rounding witnesses. Structured results (value, accepted kinds, digit runs of the message) are validated line by line by TLC.",
   "note": "IEEE rounding into f32/f64 is decided by a harness-side oracle independent of `as` (exact decimal expansion + correctly rounded parse), not by TLA+. 64-bit usize assumed. Message wording is not compared: only the received number, the violated bound, 'zero'/'empty', the string and its length.",
